@@ -273,7 +273,7 @@ int main(int argc, char **argv)
 	std::vector<js::Value> violations, samples;
 	auto record_violation = [&](const Case &c, const std::string &why) {
 		js::Value v = js::Value::obj(); v.set("signature", js::Value::str("C17/map-semantics")); v.set("detail", js::Value::str(why)); v.set("case", case_json(c));
-		std::string dir = "/verif/replays/C17/found"; std::string cmd = "mkdir -p " + dir; if (system(cmd.c_str())) {}
+		std::string dir = std::string(getenv("VERIF_ROOT") ? getenv("VERIF_ROOT") : "/verif") + "/replays/C17/found"; std::string cmd = "mkdir -p " + dir; if (system(cmd.c_str())) {}
 		char name[40]; snprintf(name, sizeof name, "%016llx", (unsigned long long)scen::fnv(js::dump(case_json(c))));
 		std::string path = dir + "/" + name + ".json"; { std::ofstream f(path); f << js::dump(v); }
 		v.set("replay", js::Value::str(path)); violations.push_back(v);
